@@ -24,7 +24,7 @@ def run(sd):
         if r.returncode:
             return sd, {"apply": "FAILED " + r.stderr[-100:]}
         for c in dict.fromkeys(checks):
-            p = subprocess.run([VERIF + "/check", c, "--tier", "quick"], cwd=VERIF, env={**os.environ, "VERIF_REPO": wt, "VERIF_OUT": base + "/out"}, capture_output=True, text=True)
+            p = subprocess.run([VERIF + "/check", c, "--tier", "quick", "--seed", os.environ.get("SEEDS_CHECK_SEED", "0")], cwd=VERIF, env={**os.environ, "VERIF_REPO": wt, "VERIF_OUT": base + "/out"}, capture_output=True, text=True)
             mech = sorted({l.strip().split(" ")[0].split("=", 1)[1] for l in p.stdout.splitlines() if l.strip().startswith("mechanism=")})
             res[c] = {"rc": p.returncode, "mechanisms": mech[:6]}
     finally:
